@@ -1,9 +1,9 @@
 mod cmd_backend;
 mod cmd_stages;
+mod cmd_shrink;
 mod consts;
 mod pipe;
 mod cmd_genfun;
-mod consts;
 mod gen_fun;
 mod gen_fun_ast;
 mod rec;
@@ -82,6 +82,7 @@ fn main() {
             cmd_backend::cmd_codegen(which, num(2, 1), num(3, 0) as usize, &mut *out, &args[5.min(args.len())..]);
         }
         "pm" => cmd_pm(num(2, 1), num(3, 100) as usize, &mut *out),
+        "shrink" => cmd_shrink::cmd_shrink(num(2, 1), num(3, 0) as usize, args.get(5..).unwrap_or(&[]), &mut *out),
         "stages" => cmd_stages::cmd_stages(num(2, 1), num(3, 0) as usize, args.get(5..).unwrap_or(&[]), &mut *out),
         c => { eprintln!("unknown command {c}"); std::process::exit(2); }
     }
